@@ -22,7 +22,24 @@ def run_checks(props):
 def main():
     assert sh('git -C %s status --porcelain' % REPO).stdout.strip() == '', '/repo is not clean'
     res = dict(breaking=[], harmless=[], at=time.strftime('%Y-%m-%d %H:%M:%S'))
-    only = sys.argv[1:]
+    args = sys.argv[1:]
+    outfile = os.path.join(VERIF, 'evidence', 'selftest.json')
+    if args and args[0] == '--out':
+        outfile, args = args[1], args[2:]
+    if args and args[0] == '--merge':
+        # merge partial results (written by parallel runs on separate scratch worktrees) into evidence/selftest.json
+        res = dict(breaking=[], harmless=[], at=time.strftime('%Y-%m-%d %H:%M:%S'))
+        for f in args[1:]:
+            part = json.load(open(f))
+            res['breaking'] += part['breaking']
+            res['harmless'] += part['harmless']
+        res['breaking'].sort(key=lambda b: b['seed'])
+        json.dump(res, open(outfile, 'w'), indent=1)
+        bad = [b['seed'] for b in res['breaking'] if not b['detected']] + [h['change'] for h in res['harmless'] if h['false_alarm']]
+        print('%d breaking changes (%d detected), %d harmless changes (%d false alarms)' % (len(res['breaking']), sum(1 for b in res['breaking'] if b['detected']), len(res['harmless']), sum(1 for h in res['harmless'] if h['false_alarm'])))
+        print('NOT DETECTED / FALSE ALARM:', bad)
+        return 1 if bad else 0
+    only = args
     for d in sorted(glob.glob(os.path.join(VERIF, 'seeded', 'C*'))):
         name = os.path.basename(d)
         if only and name not in only:
@@ -49,7 +66,7 @@ def main():
         alarm = [p for p, o in out.items() if o['rc'] == 1]
         res['harmless'].append(dict(change=name, results=out, false_alarm=bool(alarm)))
         print('%-50s %s' % ('harmless ' + name, 'FALSE ALARM ' + json.dumps(out) if alarm else 'no alarm (%s)' % ', '.join('%s rc=%d' % (p, o['rc']) for p, o in out.items())))
-    json.dump(res, open(os.path.join(VERIF, 'evidence', 'selftest.json'), 'w'), indent=1)
+    json.dump(res, open(outfile, 'w'), indent=1)
     bad = [b for b in res['breaking'] if not b['detected']] + [h for h in res['harmless'] if h['false_alarm']]
     return 1 if bad else 0
 
